@@ -2444,3 +2444,8 @@ mod tests {
         assert!((source.clock_wander - 1e-8).abs() < 1e-12);
     }
 }
+
+// verification hook (guard: cfg(kani)); contract harnesses live outside the repository
+#[cfg(kani)]
+#[path = "/verif/kani/ntp_proto/algorithm/kalman/source.rs"]
+mod verif;
